@@ -335,6 +335,10 @@ func runLinzMap(a *args, res *result) {
 		flavors = []string{"MapOf[int,val]", "MapOf[string,val]", "MapOf[skey,val]"}
 		hashers = hasherModes
 	}
+	if a.prop == "C12" {
+		// the twins must both satisfy the same concurrent specification
+		flavors = []string{"Map", "MapOf[string,any]"}
+	}
 	res.Rule = "round = one container, 2-16 goroutines running PRNG programs over 1-8 hot keys (bucket mates chosen with the inspector) with filler goroutines driving grow/shrink waves and Clear callers, random perturbation level/focus/GOMAXPROCS/polling; history recorded at the client boundary and checked with porcupine per key (+Clear in every partition) or unpartitioned (small family); non-trivial = history contains at least one pair of overlapping calls from different goroutines on one key; distinct = hash of the ticket-ordered call/return event sequence"
 	vshim.SetLiveBudget(1 << 28)
 	for i := int64(0); i < a.n; i++ {
